@@ -220,6 +220,66 @@ def run(ctx):
                               f'{type(exc).__name__}: {exc}')
                 os.remove(path)
                 n += 1
+            # the SYX "file" is a named pipe / an inherited descriptor: no size, no seeking
+            import threading
+            for plaintext in (False, True):
+                msgs = [Message('sysex', data=(1, 2, 3)), Message('note_on'), Message('sysex', data=())]
+                ref_path = os.path.join(d, f'ref{ctx.count_files}.syx')
+                ctx.count_files += 1
+                write_syx_file(ref_path, msgs, plaintext=plaintext)
+                with open(ref_path, 'rb') as f:
+                    content = f.read()
+                for how in ('fifo', 'devfd'):
+                    case = {'kind': 'pipe', 'how': how, 'plaintext': plaintext}
+                    try:
+                        if how == 'fifo':
+                            path = os.path.join(d, f'fifo{ctx.count_files}')
+                            ctx.count_files += 1
+                            os.mkfifo(path)
+
+                            def writer(p=path):
+                                with open(p, 'wb') as f:
+                                    f.write(content)
+                            th = threading.Thread(target=writer, daemon=True)
+                            th.start()
+                            got = read_syx_file(path)
+                            th.join(5)
+                            os.remove(path)
+                        else:
+                            r, w = os.pipe()
+                            os.write(w, content)
+                            os.close(w)
+                            try:
+                                got = read_syx_file(f'/dev/fd/{r}')
+                            finally:
+                                os.close(r)
+                        ctx.check('read(write(L)) == sysex(L) [text]' if plaintext else 'read(write(L)) == sysex(L) [binary]',
+                                  data_of(got) == [(1, 2, 3), ()], f'pipe-differs:{how}', case, data_of(got))
+                    except Exception as exc:
+                        ctx.fail('read(write(L)) == sysex(L) [binary]', f'pipe:{how}:{type(exc).__name__}', case, repr(exc))
+                    n += 1
+                os.remove(ref_path)
+            # targets outside the default temporary directory (other file systems where available)
+            for base in ('/dev/shm', os.path.join(os.path.dirname(os.path.dirname(os.path.dirname(os.path.abspath(__file__)))), '.work'),
+                         os.getcwd()):
+                if not (os.path.isdir(base) and os.access(base, os.W_OK)):
+                    continue
+                sub = tempfile.mkdtemp(prefix='vmon-c19-', dir=base)
+                try:
+                    for plaintext in (False, True):
+                        path = os.path.join(sub, 'x.syx')
+                        case = {'kind': 'other-fs', 'dir': base, 'plaintext': plaintext}
+                        try:
+                            write_syx_file(path, [Message('sysex', data=(5, 6))], plaintext=plaintext)
+                            got = read_syx_file(path)
+                            ctx.check('read(write(L)) == sysex(L) [binary]', data_of(got) == [(5, 6)] and os.listdir(sub) == ['x.syx'],
+                                      'other-filesystem', case, {'got': data_of(got), 'files': os.listdir(sub)})
+                        except Exception as exc:
+                            ctx.fail('read(write(L)) == sysex(L) [binary]', f'other-filesystem:{type(exc).__name__}', case, repr(exc))
+                        n += 1
+                finally:
+                    import shutil
+                    shutil.rmtree(sub, ignore_errors=True)
             # writing over an existing, longer file replaces it
             for plaintext in (False, True):
                 for first_plain in (False, True):
